@@ -201,6 +201,12 @@ func (t *table) create(spec nodeSpec) {
 	case "inherit":
 		n.inputs = []reactive.ReadableVariable[int]{pickVar(0)}
 		v := reactive.NewVariable[int]()
+		if len(spec.Co) > 0 && spec.Co[0] != 0 {
+			// the follower already holds a value of its own when it starts to inherit (e.g. it was written before, or it
+			// followed another source until then): InheritFrom still has to make it a copy of the source, also when the
+			// source currently holds the zero value
+			v.Set(spec.Co[0])
+		}
 		n.value, n.unsubscribe = v, v.InheritFrom(n.inputs[0])
 	case "counter":
 		if c := condOf(spec.Cond); c != nil {
@@ -493,6 +499,7 @@ func genNode() *rapid.Generator[nodeSpec] {
 			n.In, n.Co = rapid.SliceOfN(ix, 3, 3).Draw(t, "in"), rapid.SliceOfN(co, 4, 4).Draw(t, "co")
 		case "inherit":
 			n.In = rapid.SliceOfN(ix, 1, 1).Draw(t, "in")
+			n.Co = rapid.SliceOfN(rapid.IntRange(0, 3), 1, 1).Draw(t, "preset")
 		case "counter":
 			n.In = rapid.SliceOfN(ix, 0, 3).Draw(t, "in")
 			n.Cond = rapid.IntRange(-1, 1).Draw(t, "cond")
